@@ -10,6 +10,7 @@ CONSTANTS N = 3
   G_STMFIRST = TRUE
   G_CHAIN = TRUE
   G_GLOBDEPTH = TRUE
+  G_WALKDEPTH = FALSE
 INVARIANTS NoOverflow WorkBounded ChainBounded
 PROPERTY Termination
 CHECK_DEADLOCK FALSE
